@@ -52,6 +52,8 @@ pub fn configs(prop: &str, thorough: bool) -> Vec<(Cfg, Option<usize>)> {
                     c.mint_amounts = vec![0, 1, 2, 5];
                     c.grant_cap = Some(if thorough { 3 } else { 2 });
                     c.kinds = kinds(&ALL_KINDS);
+                    // an upgrade must not move balances or the supply either
+                    c.migrate_probe = *mn == "cap4";
                     out.push((c, None));
                 }
             }
@@ -126,6 +128,7 @@ pub fn configs(prop: &str, thorough: bool) -> Vec<(Cfg, Option<usize>)> {
                 c.amounts = vec![0, 1, 2, 3];
                 c.exps = if thorough { exps.clone() } else { vec![ExpA::Unset, ExpA::H(H0), ExpA::H(H0 + 2), ExpA::T(T0 + DT)] };
                 c.payloads = vec![0, 1];
+                c.migrate_probe = true;
                 c.grant_cap = Some(if thorough { 3 } else { 2 });
                 c.hmax = if thorough { H0 + 3 } else { H0 + 2 };
                 out.push((c, None));
